@@ -53,6 +53,7 @@ theorem matchV_flat_top (H : Hierarchy) {a : Ann} (ha : a.flat = true) (w : VTy)
   | base b => cases w <;> first | exact absurd rfl hw | rfl
   | cls k => cases w <;> first | exact absurd rfl hw | rfl
   | typeC k => cases w <;> first | exact absurd rfl hw | rfl
+  | typeU ks bs => cases w <;> first | exact absurd rfl hw | rfl
   | _ => simp [Ann.flat] at ha
 
 /-- a flat annotation decides the same way on all views of a value -/
